@@ -42,7 +42,10 @@ def work(tier, seed):
             if kind == "ulp" and sum(a + c for a, c in bl) > 8:
                 continue
             items.append({"blocks": [list(x) for x in bl], "grid": kind, "scalars": False,
-                          "small_easy": kind in ("float32", "mixed", "negated", "ulp", "uint"), "mutated": kind == "irregular"})
+                          "small_easy": kind in ("float32", "mixed", "mixed_narrow", "mixed_narrow_neg", "mixed_f32", "negated", "ulp", "uint"), "mutated": kind == "irregular"})
+        if tier != "quick" or sum(a + c for a, c in bl) <= 4:
+            for kind in ot.MIXED_KINDS[1:]:
+                items.append({"blocks": [list(x) for x in bl], "grid": kind, "scalars": False, "small_easy": True, "mutated": False})
     for n in (ot.LADDER_QUICK if tier == "quick" else ot.LADDER_THOROUGH):
         for tf in (True, False):
             items.append({"ladder": n, "tie_free": tf, "scalars": False, "small_easy": True})
